@@ -369,6 +369,19 @@ func (m *Monitors) c06(c *Chain, o Op, res string) []string {
 		if !kycOK(o.Ky, o.Signer) {
 			v = append(v, "C06 WAG accepted with identity data that does not approve the bettor")
 		}
+	case "PROP":
+		reg := false
+		for _, k := range m.prevOvm.vault {
+			reg = reg || k == o.Tk.Signer
+		}
+		if !(o.Tk.Signer >= 0 && reg && o.Tk.Exp > c.Time) {
+			v = append(v, fmt.Sprintf("C06 PROP accepted with a ticket that is not an unexpired ticket of a registered key (signer %d, exp %d, block time %d)", o.Tk.Signer, o.Tk.Exp, c.Time))
+		}
+	case "VOTE":
+		okv := o.VoterIdx >= 0 && int(o.VoterIdx) < len(m.prevOvm.vault) && o.Tk.Signer >= 0 && m.prevOvm.vault[o.VoterIdx] == o.Tk.Signer && o.Tk.Exp > c.Time
+		if !okv {
+			v = append(v, fmt.Sprintf("C06 VOTE accepted with a ticket that is not an unexpired ticket of the voting key (signer %d, exp %d, block time %d)", o.Tk.Signer, o.Tk.Exp, c.Time))
+		}
 	case "SWAG":
 		if !okLeader(o.Tk) || !okLeader(o.Tk2) {
 			v = append(v, "C06 SWAG accepted with an invalid ticket")
